@@ -815,11 +815,21 @@ def _run_case(spec):
     explicit = "ops" in spec
     rng = random.Random(spec.get("seed", 0))
     family = spec.get("family", "explicit")
+    ints = spec.get("int_coords")
+
+    def as_int(p):
+        # (lattice coordinates are multiples of 1/2: twice the coordinate times the spacing is an exact Python int)
+        return tuple(int(round(2 * float(x))) * ints for x in p)
+
     if explicit:
         init = [tuple(float.fromhex(x) for x in p) for p in spec["init"]]
+        if ints:
+            init = [tuple(int(x) for x in p) for p in init]
         diag = None if spec.get("diag") is None else [float.fromhex(x) for x in spec["diag"]]
     else:
         init = initial_points(rng, dim, family)
+        if ints:
+            init = [as_int(p) for p in init]
         off = spec.get("offset")
         if spec.get("scale") is not None:
             init = [tuple(x * spec["scale"] for x in p) for p in init]
@@ -859,11 +869,15 @@ def _run_case(spec):
         if explicit:
             o = spec["ops"][k - 1]
             point = tuple(float.fromhex(x) for x in o["p"])
+            if ints:
+                point = tuple(int(x) for x in point)
             hint = None if o["hint"] is None else tuple(o["hint"])
             kind, mode = o.get("kind", "?"), o.get("mode", "?")
         else:
             for _try in range(50):
                 point, kind = next_point(rng, tri, dim, family, spec.get("offset"), spec.get("scale"))
+                if ints and kind != "duplicate":
+                    point = as_int(point)
                 if point in tri.vertices or not near_vertex(tri, point):
                     break
             else:
@@ -999,7 +1013,8 @@ def _run_case(spec):
                     try:
                         v = int(det.split()[1])
                         star = [(sx, r) for sx, r in audit.band if v in sx]
-                        if star:
+                        # ... and NO simplex of the star was answered against the exact test beyond the band (that would be another cause)
+                        if star and not any(v in m[0] for m in audit.misround):
                             orphaned_by_band = star
                     except (ValueError, IndexError):
                         pass
@@ -1061,5 +1076,8 @@ def _run_case(spec):
     stats["final_simplices_total"] += len(tri.simplices)
     exp = {"dim": dim, "init": [[float(x).hex() for x in p] for p in init],
            "diag": None if diag is None else [float(x).hex() for x in diag], "ops": ops_done}
+    if ints:
+        exp["int_coords"] = ints
+        stats["integer_coordinates"] += 1
     return {"lines": lines, "impl": outs, "fails": fails, "stats": dict(stats), "meta": {k: v for k, v in spec.items() if k != "ops"},
             "explicit": exp}
